@@ -54,6 +54,8 @@ type RunResult struct {
 	Tape        []uint32          `json:"tape,omitempty"`
 	Trace       []string          `json:"trace,omitempty"`
 	Sample      interface{}       `json:"sample,omitempty"`
+	Aux         map[string][]int64 `json:"-"`
+	Evals       int               `json:"evals,omitempty"` // >0: number of evaluations this run stands for (enumerations)
 	BubblePanic string            `json:"bubble_panic,omitempty"`
 	Leaked      int               `json:"leaked"`
 }
@@ -75,6 +77,8 @@ type Run struct {
 	Probes     map[string]int
 	Config     map[string]string
 	Sample     interface{}
+	Aux        map[string][]int64
+	Evals      int
 	Nontrivial bool
 
 	strategy   string
@@ -439,6 +443,8 @@ func Execute(t *testing.T, spec RunSpec) (res RunResult) {
 		res.Config = r.Config
 		res.Nontrivial = r.Nontrivial
 		res.Sample = r.Sample
+		res.Aux = r.Aux
+		res.Evals = r.Evals
 		res.Tape = r.T.Recorded()
 		res.Trace = r.trace
 		res.Leaked = r.S.NLive()
